@@ -3,6 +3,7 @@
 package eng
 
 import (
+	"runtime"
 	"bufio"
 	"encoding/binary"
 	"encoding/json"
@@ -65,6 +66,9 @@ type Found struct {
 	Shrunk   *ShrinkInfo     `json:"shrunk,omitempty"`
 	Source   string          `json:"source_sha,omitempty"`
 	Corpus   bool            `json:"from_corpus,omitempty"`
+	// Procs: GOMAXPROCS of the process that found it (the library may consult
+	// it; shrinking and replay run with the same value).
+	Procs int `json:"gomaxprocs,omitempty"`
 }
 
 type ShrinkInfo struct {
@@ -172,7 +176,7 @@ func mkFound(spec *Spec, prop string, sc any, o *Outcome, base uint64, idx int, 
 	return &Found{
 		Violation: *o.V, Engine: spec.Name, BaseSeed: base, Index: idx, RunSeed: runSeed,
 		Scenario: raw, Tape: o.Res.Tape, Events: o.Res.Events, LogHash: LogHash(o.Res.Events),
-		Blocked: o.Res.Blocked, Panics: o.Res.Panics,
+		Blocked: o.Res.Blocked, Panics: o.Res.Panics, Procs: runtime.GOMAXPROCS(0),
 	}
 }
 
